@@ -1,0 +1,7 @@
+//go:build !verif
+// +build !verif
+
+package zenodb
+
+// vhook is a no-op unless built with -tags verif (see verif_on.go).
+func vhook(ev string, kv ...interface{}) {}
